@@ -846,6 +846,8 @@ def check(run):
     check_stale_loop_variables(run, A, ('pb_bss.distribution.', 'pb_bss.initializer.'))
     from ..opt import check_extent_loops
     check_extent_loops(run, A, ('pb_bss.distribution.', 'pb_bss.initializer.'))
+    from ..opt import check_casts_to_another_operands_dtype
+    check_casts_to_another_operands_dtype(run, A, ('pb_bss.distribution.', 'pb_bss.initializer.'))
     from ..opt import check_block_partitions
     check_block_partitions(run, A, ('pb_bss.distribution.', 'pb_bss.initializer.'))
     check_forwarding(run, A, ('pb_bss.distribution.', 'pb_bss.initializer.'))
